@@ -192,7 +192,8 @@ def main():
     proof = prove('Properties_C01.v')
     handle_proof(rep, proof, 'see correspondence results of this run')
     cases = gen_cases(sd, tr)
-    cfgs = quick_grid() if tr == 'quick' else thorough_grid() + [Config('avx2', 'c++14', '-O2', ['FASTOR_MATMUL_INNER_BLOCK_SIZE=%d' % i]) for i in (1, 3, 4, 5)] + [Config('avx512', 'c++17', '-O2', ['FASTOR_MATMUL_OUTER_BLOCK_SIZE=%d' % i]) for i in (1, 2, 3)]
+    # quick: the 4- and 5-column micro-kernels are reachable only through FASTOR_MATMUL_INNER_BLOCK_SIZE (the default picks 2 or 3)
+    cfgs = quick_grid() + [Config('avx2', 'c++14', '-O2', ['FASTOR_MATMUL_INNER_BLOCK_SIZE=4']), Config('sse2', 'c++17', '-O2', ['FASTOR_MATMUL_INNER_BLOCK_SIZE=5', 'FASTOR_MATMUL_OUTER_BLOCK_SIZE=1'])] if tr == 'quick' else thorough_grid() + [Config('avx2', 'c++14', '-O2', ['FASTOR_MATMUL_INNER_BLOCK_SIZE=%d' % i]) for i in (1, 3, 4, 5)] + [Config('avx512', 'c++17', '-O2', ['FASTOR_MATMUL_OUTER_BLOCK_SIZE=%d' % i]) for i in (1, 2, 3)]
     nshard = 12 if tr == "quick" else 48
     shards = [cases[i::nshard] for i in range(nshard)]
     jobs = [(cfg, si) for cfg in cfgs for si in range(nshard)]
